@@ -20,3 +20,5 @@ import ScrutModel.Props.C10
 import ScrutModel.Props.C09
 -- corollaries about the integrated model of `scrut test` (Model/TestRun.lean); no property file depends on them
 import ScrutModel.Lemmas.TestRun
+-- the integrated executable model of `scrut update --replace` (Model/UpdateRun.lean); tied to the binary by the harness (op `upddoc`), no property file depends on it
+import ScrutModel.Model.UpdateRun
